@@ -813,6 +813,28 @@ func hoistFlow(in []string) []string {
 	return flowText(hoistNodes(ns))
 }
 
+// sortWriteRuns: the order of ADJACENT plain field writes (no call, channel operation, lock
+// operation or branch between them) is not part of a flow: swapping two such assignments cannot be
+// observed by another goroutine that respects the lock discipline (checked separately, C08), so a
+// run of consecutive `write <field>` actions is listed in alphabetical order.
+func sortWriteRuns(in []string) []string {
+	out := append([]string{}, in...)
+	for i := 0; i < len(out); {
+		j := i
+		for j < len(out) && strings.HasPrefix(out[j], "write ") {
+			j++
+		}
+		if j-i > 1 {
+			sortStrings(out[i:j])
+		}
+		if j == i {
+			j++
+		}
+		i = j
+	}
+	return out
+}
+
 func genFlows(load func(string) *pkgInfo) (string, error) {
 	var b strings.Builder
 	for _, fs := range flowSpecs {
@@ -823,7 +845,7 @@ func genFlows(load func(string) *pkgInfo) (string, error) {
 		}
 		w := &flowWalker{pi: pi, tail: true}
 		w.block(fd.Body.List)
-		flow := simplifyFlow(hoistFlow(simplifyFlow(w.out)))
+		flow := sortWriteRuns(simplifyFlow(hoistFlow(simplifyFlow(w.out))))
 		fmt.Fprintf(&b, "/-- actions of %s in source order -/\ndef %s : List String := [", fs.fn, fs.lean)
 		for i, s := range flow {
 			if i > 0 {
